@@ -35,8 +35,8 @@ def _replay_task(args):
             part.check(case, ev)
         except core.Violation as v:
             out["violation"] = v.detail
-        except Exception as e:  # noqa
-            if core.from_puan(e):
+        except BaseException as e:  # noqa
+            if not isinstance(e, (KeyboardInterrupt, SystemExit)) and core.from_puan(e):
                 out["violation"] = f"unexpected exception from puan: {type(e).__name__}: {str(e)[:300]}"
             else:
                 raise
